@@ -5,7 +5,8 @@ Cases (plain JSON; containers use a tagged encoding, see ``dec``):
    "route": route key, "nest": how the container is reached from the context}
   {"kind": "filter", "async": bool, "autoescape": bool, "filter": name, "value": <any>, "args": [...], "kwargs": {...},
    "consume": "print" | "list" | "loop"}
-  optional in both: "autoescape": bool, "pre": [environment kinds ("sandbox" | "plain" | "immutable") that render the
+  {"kind": "assign", "async": bool, "autoescape": bool, "form": key of ASSIGN_FORMS, "data": <container>, "reach": key}
+  optional in all: "autoescape": bool, "pre": [environment kinds ("sandbox" | "plain" | "immutable") that render the
   same source first, each on its own copy of the data]
 
 Oracle: the context is built twice from the case (the second copy is the snapshot); after rendering in
@@ -29,13 +30,20 @@ LEVEL = "exploration"
 RULE = (
     "method table: every name in dir(list), dir(dict), dir(set), dir(collections.deque) of the running interpreter "
     "(public and dunder) x 24 argument shapes (none, new/existing element or key, key+value, index, index+value, "
-    "list/str/dict/set/deque/pairs arguments held in the context, keyword arguments) x 18 routes (dot, subscript, "
+    "list/str/dict/set/deque/pairs arguments held in the context, keyword arguments) x 25 routes (dot, subscript, "
     "computed name, set/with alias, attr filter, map(attribute)/map('attr')/dotted path, format field and index "
     "lookups, macro argument, loop variable, list/namespace storage, default filter, do statement, call through a "
-    "stored alias of an alias) enumerated completely in sync and async mode, with the container reached directly, "
+    "stored alias of an alias; the same method taken unbound from the type object passed in the context or from the "
+    "`dict` global, by dot / attr filter / map('attr') / alias / stored reference, with the container as first argument) "
+    "enumerated completely in sync and async mode, with the container reached directly, "
     "as list/tuple/dict element, object attribute or deep path (rotating); histories: every method that can mutate, "
     "rendered first in an ordinary SandboxedEnvironment and/or plain Environment of the same process (5 orders x 6 "
-    "routes x sync/async, run before anything else in the worker) and then judged in the immutable one; filter table: "
+    "routes x sync/async, run before anything else in the worker) and then judged in the immutable one; assignment "
+    "table: 35 statement forms ({% set %} expression / block / filtered block / tuple forms whose targets name an "
+    "attribute of a context container directly or through an alias, with, macro parameter or loop variable; rebinding "
+    "a namespace name and assigning its attribute in one statement; namespace(container), namespace(container, k=1), "
+    "nested namespaces followed by attribute / block / tuple / loop assignments; dict(), cycler, joiner built from the "
+    "container) x 6 container values x 4 ways of reaching it x sync/async x autoescape; filter table: "
     "every built-in filter x 12 container values x (no argument, each positional slot and each keyword parameter of "
     "its signature set to each of 10 context-held values, required parameters filled) x {print, list, loop} "
     "consumption x sync/async x autoescape off/on; plus "
@@ -193,7 +201,18 @@ ROUTES = {
     "namespace": "{% set n = namespace(f=@X@.@M@) %}{{ n.f(@A@) }}",
     "do": "{% do @X@.@M@(@A@) %}",
     "ifexpr": "{{ (@X@.@M@ if true else 1)(@A@) }}",
+    # the method taken unbound from the type object (T = the container's exact type, passed in the context; `dict` is
+    # also a template global) and called with the container as first argument; subscript routes are left out because
+    # list['append'] is a generic alias (class subscription), not an attribute lookup
+    "unbound_T_dot": "{{ T.@M@(@XA@) }}",
+    "unbound_T_attr": "{{ (T|attr('@M@'))(@XA@) }}",
+    "unbound_T_alias": "{% set D = T %}{% set f = D.@M@ %}{{ f(@XA@) }}",
+    "unbound_T_mapattr": "{{ ([T]|map('attr', '@M@')|first)(@XA@) }}",
+    "unbound_dict_global": "{{ dict.@M@(@XA@) }}",
+    "unbound_dict_alias": "{% set D = dict %}{{ D.@M@(@XA@) }}",
+    "unbound_dict_stored": "{% set fs = {'f': dict.@M@} %}{{ fs.f(@XA@) }}",
 }
+DICT_GLOBAL_ROUTES = ("unbound_dict_global", "unbound_dict_alias", "unbound_dict_stored")
 # how the container is reached: key -> (expression, builder of the context entry)
 NESTS = {
     "top": "c",
@@ -231,6 +250,8 @@ def _method_ctx(case):
         ctx["a%d" % i] = dec(a)
     for k, v in case["kwargs"].items():
         ctx["kw_" + k] = dec(v)
+    if case.get("route", "").startswith("unbound_T"):
+        ctx["T"] = type(c)
     return ctx, c
 
 
@@ -238,8 +259,10 @@ def method_src(case):
     m = case["method"]
     half = max(1, len(m) // 2)
     t = ROUTES[case["route"]]
-    return (t.replace("@X@", NESTS[case["nest"]]).replace("@M1@", m[:half]).replace("@M2@", m[half:])
-            .replace("@M@", m).replace("@A@", _args_text(case["args"], case["kwargs"])))
+    at = _args_text(case["args"], case["kwargs"])
+    x = NESTS[case["nest"]]
+    return (t.replace("@XA@", x + (", " + at if at else "")).replace("@X@", x).replace("@M1@", m[:half]).replace("@M2@", m[half:])
+            .replace("@M@", m).replace("@A@", at))
 
 
 _cache = {}
@@ -279,9 +302,13 @@ def _plain_call(case):
     ref, _ = _method_ctx(case)
     exc = None
     try:
-        f = getattr(c, case["method"])
+        args = [ctx["a%d" % i] for i in range(len(case["args"]))]
+        if case.get("route", "").startswith("unbound"):
+            f, args = getattr(type(c), case["method"]), [c] + args
+        else:
+            f = getattr(c, case["method"])
         # a non-callable attribute (deque.maxlen, list.__hash__) raises TypeError here exactly as in the template
-        f(*[ctx["a%d" % i] for i in range(len(case["args"]))], **{k: ctx["kw_" + k] for k in case["kwargs"]})
+        f(*args, **{k: ctx["kw_" + k] for k in case["kwargs"]})
     except Exception as e:  # noqa: BLE001 - plain Python on harness data
         exc = type(e)
     return deep_diff(ctx, ref) is not None, exc
@@ -289,6 +316,8 @@ def _plain_call(case):
 
 def check_method(case):
     X = _excs()
+    if case["route"] in DICT_GLOBAL_ROUTES and type(dec(case["data"])) is not dict:
+        raise core.Discard()  # dict.<method>(non-dict) is a TypeError of the descriptor, nothing to learn
     ctx, _ = _method_ctx(case)
     snap, _ = _method_ctx(case)
     mutates, plain_exc = _plain_call(case)
@@ -332,6 +361,8 @@ def method_cases():
             for sk in SHAPE_KEYS:
                 args, kwargs = SHAPES[sk]
                 for rk in ROUTE_KEYS:
+                    if rk in DICT_GLOBAL_ROUTES and tname != "dict":
+                        continue
                     for is_async in (False, True):
                         k += 1
                         yield {"kind": "method", "async": is_async, "data": SAMPLES[tname], "method": m, "args": args, "kwargs": kwargs,
@@ -512,6 +543,102 @@ def hash_name(name):
 
 
 # ---------------------------------------------------------------------------------------
+# assignment statements and namespace objects built from context containers
+
+# @C@ = a context variable holding the container (a plain name: dotted targets are only parsed for `name.attr`),
+# @E@ = an expression reaching the same container (c, hd.c, outer[0], ...)
+ASSIGN_FORMS = {
+    "set_attr": "{% set @C@.y = 1 %}",
+    "set_attr_existing": "{% set @C@.a = 1 %}",
+    "set_block_attr": "{% set @C@.y %}42{% endset %}",
+    "set_block_attr_existing": "{% set @C@.a %}42{% endset %}",
+    "set_block_attr_filter": "{% set @C@.y | upper %}x{% endset %}",
+    "set_tuple_attr": "{% set q, @C@.y = 1, 2 %}",
+    "set_tuple_attr_first": "{% set @C@.y, q = 1, 2 %}",
+    "set_tuple_paren": "{% set (q, @C@.y) = (1, 2) %}",
+    "set_nested_tuple": "{% set q, (r, @C@.y) = 1, (2, 3) %}",
+    "rebind_then_attr": "{% set ns = namespace() %}{% set ns, ns.a = @E@, 1 %}",
+    "rebind_then_attr_rev": "{% set ns = namespace() %}{% set ns.a, ns = 1, @E@ %}",
+    "rebind_then_attr_nested": "{% set ns = namespace() %}{% set (q, ns), ns.y = (1, @E@), 2 %}",
+    "rebind_then_block": "{% set ns = namespace() %}{% set ns = @E@ %}{% set ns.y %}v{% endset %}",
+    "alias_then_attr": "{% set ns = @E@ %}{% set ns.y = 1 %}",
+    "alias_then_block": "{% set ns = @E@ %}{% set ns.y %}v{% endset %}",
+    "with_alias_attr": "{% with ns = @E@ %}{% set ns.y = 1 %}{% endwith %}",
+    "macro_param_attr": "{% macro m(ns) %}{% set ns.y = 1 %}{% endmacro %}{{ m(@E@) }}",
+    "macro_param_block": "{% macro m(ns) %}{% set ns.y %}v{% endset %}{% endmacro %}{{ m(@E@) }}",
+    "loop_var_attr": "{% for ns in [@E@] %}{% set ns.y = 1 %}{% endfor %}",
+    "loop_var_block": "{% for ns in [@E@] %}{% set ns.y %}v{% endset %}{% endfor %}",
+    "loop_target_attr": "{% for @C@.y in [1] %}{% endfor %}",
+    "set_item": "{% set @C@['y'] = 1 %}",
+    "namespace_of": "{% set ns = namespace(@E@) %}{% set ns.x = 1 %}",
+    "namespace_of_existing": "{% set ns = namespace(@E@) %}{% set ns.a = 9 %}",
+    "namespace_of_block": "{% set ns = namespace(@E@) %}{% set ns.x %}v{% endset %}",
+    "namespace_of_kw": "{% set ns = namespace(@E@, k=1) %}{% set ns.x = 1 %}{% set ns.k = 2 %}",
+    "namespace_of_tuple": "{% set ns = namespace(@E@) %}{% set ns.x, ns.y = 1, 2 %}",
+    "namespace_of_loop": "{% set ns = namespace(@E@) %}{% for i in [1, 2] %}{% set ns.x = i %}{% endfor %}",
+    "namespace_of_macro": "{% macro m(n) %}{% set n.x = 1 %}{% endmacro %}{{ m(namespace(@E@)) }}",
+    "namespace_kw_value": "{% set ns = namespace(d=@E@) %}{% set ns.d = 1 %}{% set ns.e = 2 %}",
+    "namespace_twice": "{% set ns = namespace(namespace(@E@)) %}",
+    "namespace_read": "{% set ns = namespace(@E@) %}{{ ns.a }}{% set ns.z = ns.a %}",
+    "dict_global_copy": "{% set dd = dict(@E@) %}{{ dd.update(y=1) }}",
+    "cycler_items": "{% set cy = cycler(@E@) %}{{ cy.next() }}{{ cy.reset() }}",
+    "joiner_sep": "{% set jn = joiner(@E@) %}{{ jn() }}{{ jn() }}",
+}
+ASSIGN_DATA = {
+    "dict": D(("a", 1), ("b", [2])),
+    "dict_empty": D(),
+    "pairs": [["a", 1], ["b", 2]],
+    "list": [3, 1, 2],
+    "set": S(1, 2),
+    "deque": Q(3, 1),
+}
+ASSIGN_REACH = {"top": ("c", "c"), "in_dict": ("c", "hd.c"), "in_list": ("c", "outer[0]"), "obj_attr": ("c", "ob.c")}
+
+
+def assign_src(case):
+    cname, expr = ASSIGN_REACH[case["reach"]]
+    return ASSIGN_FORMS[case["form"]].replace("@C@", cname).replace("@E@", expr)
+
+
+def _assign_ctx(case):
+    c = dec(case["data"])
+    return {"c": c, "hd": {"c": c, "x": 1}, "outer": [c, 0], "ob": Holder(c=c)}
+
+
+def check_assign(case):
+    X = _excs()
+    ctx, snap = _assign_ctx(case), _assign_ctx(case)
+    src = assign_src(case)
+    _history(case, src, lambda: _assign_ctx(case))
+    env = _env(case["async"], case.get("autoescape", False))
+    ordinary = (X["TemplateError"], TypeError, ValueError, LookupError, AttributeError)
+    err = None
+    try:
+        g.render(env, src, ctx)
+    except ordinary as e:
+        err = e
+    where = "\n  async=%s autoescape=%s data=%r\n  template: %s" % (case["async"], case.get("autoescape", False), case["data"], src)
+    d = deep_diff(ctx, snap)
+    if d:
+        raise core.Violation("immutable sandbox modified context data through an assignment / namespace: %s (outcome %s)%s" % (
+            d, "output" if err is None else type(err).__name__, where))
+    compiled = not isinstance(err, X["jinja2"].TemplateSyntaxError)
+    labels = ["assign", "async" if case["async"] else "sync", "form_" + case["form"],
+              "assign_" + ("output" if err is None else type(err).__name__)]
+    return core.Outcome(compiled, labels)
+
+
+def assign_cases():
+    for form in sorted(ASSIGN_FORMS):
+        for dk in sorted(ASSIGN_DATA):
+            for reach in sorted(ASSIGN_REACH):
+                for is_async in (False, True):
+                    for autoescape in (False, True):
+                        yield {"kind": "assign", "async": is_async, "autoescape": autoescape, "form": form, "data": ASSIGN_DATA[dk],
+                               "reach": reach}
+
+
+# ---------------------------------------------------------------------------------------
 # Hypothesis part
 
 
@@ -605,6 +732,8 @@ def random_filter_case(draw):
 def check_case(case):
     if case["kind"] == "method":
         return check_method(case)
+    if case["kind"] == "assign":
+        return check_assign(case)
     return check_filter(case)
 
 
@@ -616,6 +745,8 @@ def run_shard(spec, ctx):
     rec = core.Rec()
     # each stage runs only while nothing has failed: a failing tree is reported from the cheapest stage
     core.enum_shard(history_cases(ctx.index, ctx.nshards), check_case, ctx, rec=rec, stop_after=6)
+    if not rec.violations:
+        core.enum_shard(core.sliced(assign_cases(), ctx.index, ctx.nshards), check_case, ctx, rec=rec, stop_after=6)
     if not rec.violations:
         core.enum_shard(core.sliced(method_cases(), ctx.index, ctx.nshards), check_case, ctx, rec=rec, stop_after=6)
     if not rec.violations:
